@@ -8,7 +8,7 @@ from concurrent.futures import ProcessPoolExecutor
 
 from . import common, ir, cg, sym
 
-ELEMS = {'NM': 'svp::NM', 'TM': 'svp::TM', 'MO': 'svp::MO', 'MOT': 'svp::MOT', 'CO': 'svp::CO',
+ELEMS = {'NM': 'svp::NM', 'NA': 'svp::NA', 'TM': 'svp::TM', 'MO': 'svp::MO', 'MOT': 'svp::MOT', 'CO': 'svp::CO',
          'TR': 'svp::TR', 'int': 'int', 'intp': 'int *'}
 SIZETS = {'u8': 'std::uint8_t', 'u16': 'std::uint16_t', 'u32': 'std::uint32_t',
           'u64': 'std::size_t'}
